@@ -8,7 +8,7 @@ RULE = ("concurrent scripts (callers on clones, polls in any order, cancellation
 def generate(rng, tier):
     k = 1 if tier == "quick" else 12
     return ([random_concurrent(rng) for _ in range(900 * k)] + [half_open_burst(rng) for _ in range(400 * k)] +
-            [random_seq_history(rng) for _ in range(400 * k)])
+            [random_seq_history(rng) for _ in range(400 * k)] + [multi_phase_burst(rng) for _ in range(200 * k)])
 
 
 def monitor(s, t):
